@@ -47,6 +47,9 @@ pub struct Plan {
     /// `socket_every` in quick
     pub socket_kinds: Vec<Kind>,
     pub socket_every: usize,
+    /// one case in `binary_every` is also run against the real executable (SQLite, allow-list
+    /// holding the history's clients, kill -9 + restart at 8% of the gaps); 0 = never
+    pub binary_every: usize,
 }
 
 #[derive(Clone, Copy, Debug, PartialEq, Eq)]
@@ -277,8 +280,15 @@ fn run_case(plan: &Plan, h: &History, case: usize, origin: &str, sh: &Shared) {
             subjects.push((*k, None));
         }
     }
-    for (kind, allow) in &subjects {
-        let mut subj = match Subject::with(*kind, plan.config, allow.clone(), None) {
+    let mut binary_idx: Option<usize> = None;
+    if plan.binary_every > 0 && case % plan.binary_every == 0 && crate::net::server_bin().is_some() {
+        let ids: std::collections::HashSet<Uuid> = (0..h.n_clients).map(|c| crate::e1::client_uuid(h.seed, c)).collect();
+        binary_idx = Some(subjects.len());
+        subjects.push((Kind { backend: Backend::Sqlite, entry: Entry::Http, reopen_pct: 8, socket: true }, Some(ids)));
+    }
+    for (si, (kind, allow)) in subjects.iter().enumerate() {
+        let made = if Some(si) == binary_idx { Subject::with_binary(plan.config, allow.clone(), 8) } else { Subject::with(*kind, plan.config, allow.clone(), None) };
+        let mut subj = match made {
             Ok(s) => s,
             Err(e) => {
                 sh.errors.lock().unwrap().push(format!("cannot create subject {}: {e:#}", kind.name()));
@@ -565,11 +575,13 @@ pub fn plan_for(id: &str, tier: &str) -> Option<Plan> {
         allowlisted_variant: false,
         socket_kinds: vec![],
         socket_every: 8,
+        binary_every: 0,
     };
     match id {
         "C01" => {
             p.property = "C01";
             p.mon.chain = true;
+            p.binary_every = if thorough { 6 } else { 16 };
             p.long = (n(2, 40), n(600, 2000));
             p.required = vec!["AddVersion|", "base=id", "arg=foreign|conflict", "arg=base", "|accepted"];
             p.rule = "random adversarial multi-client histories (nil/latest/stale/base/fresh/foreign ids, nil and non-nil first parent, reopen) on 5 subjects; after every operation every client's chain is walked from its base through the same entry point and, for SQLite, all rows are scanned for forks/orphans. A situation = (operation, client state class, argument class, outcome); distinct_nontrivial counts distinct situations observed. Concurrent part: the E2 scenarios in which only AddVersion requests overlap (pairs, triples, two-request programs; never-seen, empty and existing clients; all backends; both entries) under the controlled scheduler with the differential oracle (final state includes every known id that exists as a version and the child index, so a fork or an orphan cannot match any one-at-a-time order).";
@@ -588,6 +600,7 @@ pub fn plan_for(id: &str, tier: &str) -> Option<Plan> {
             p.property = "C07";
             p.mon.immut = true;
             p.allowlisted_variant = true;
+            p.binary_every = if thorough { 6 } else { 16 };
             p.n_random = n(140, 5000);
             p.long = (n(1, 24), n(400, 2000));
             p.required = vec!["AddSnapshot|", "|conflict", "|accepted"];
@@ -639,6 +652,7 @@ pub fn plan_for(id: &str, tier: &str) -> Option<Plan> {
             p.property = "C13";
             p.compare = Compare::Backends;
             p.allowlisted_variant = true;
+            p.binary_every = if thorough { 6 } else { 16 };
             p.profile.pause_per_10k = 4;
             p.kinds = vec![
                 Kind::MEM_LIB,
